@@ -273,7 +273,7 @@ theorem tie_defaultCache :
 /-! ### rest/httpx.Parse (`Model.httpParse`) -/
 
 /-- path, form, headers, JSON body in this order, the first error wins (stated from the test of the target's kind on: how
-`kind` is computed in front of it — with or without the nil guard of fixes/C08-nil-target.patch — is not part of the order) -/
+`kind` is computed in front of it — with or without the nil guard of fixes/not-applied/C08-nil-target.patch — is not part of the order) -/
 theorem tie_httpParseOrder :
     (httpParseShape.dropWhile (fun s => s != "if kind != reflect.Array && kind != reflect.Slice {")).take 18 =
       ["if kind != reflect.Array && kind != reflect.Slice {", "call ParsePath", "if err != nil {", "return", "}",
